@@ -143,7 +143,7 @@ def run(case, ctx):
         if r1 != r2:
             fails.append(fail("symmetry", {"flags": fl, "ab": r1, "ba": r2}))
         exp_equal = pert == "none" or (pert in relax and fl[relax[pert]])
-        if pert == "channel" and len(set(n[0] for n in case["a"]["notes"])) > 1:
+        if pert == "channel" and case["b"].get("relabel") != 5:
             exp_equal = None  # multi-channel relabel of a single note: the channel flag is outside the claim
         if exp_equal is True:
             LOG.n("c17.expected_equal_calls", 2)
